@@ -2,10 +2,7 @@
 // meaning of a mask match; defined as glob semantics in contracts/60_wildcard.rs
 pub uninterp spec fn wild(pattern: Seq<char>, text: Seq<char>) -> bool;
 
-//@fn utils.rs match_wildcard unit=wildcard props=C14,C07
-//@spec
-    ensures r == wild(pattern@, text@), // @prop C14
-//@end
+// match_wildcard: contract in contracts/60_wildcard.rs
 
 pub open spec fn any_match(set: Set<String>, text: Seq<char>) -> bool {
     exists|m: String| set.contains(m) && wild(#[trigger] m@, text)
